@@ -209,18 +209,36 @@ theorem Gaps.adjacent {lines : List (List Nat)} {g : Pos} (pre : List Tok5) (a b
     lies before the first token or between two consecutive tokens is a blank, a tab or a form feed (the line-leading
     indentation that `next_statement` measures) or a backslash, a CR or a LF (a backslash continuation).  Together with
     the slice and order theorems: the tokens and these gaps tile the text up to the last token. -/
-theorem gaps_are_indentation_or_continuation (E : Env) (P : Pats) (hP : PseudoProgress P) (hF : FstrLen P) (hE : FstrEnds P)
+theorem gaps_and_trailing (E : Env) (P : Pats) (hP : PseudoProgress P) (hF : FstrLen P) (hE : FstrEnds P)
     (hEG : EndGap P) (src : List Nat) (hfin : (tokenize E P src).err = none) :
-    Gaps (splitLines src []) ⟨1, 0⟩ (tokenize E P src).toks := by
+    Gaps (splitLines src []) ⟨1, 0⟩ (tokenize E P src).toks ∧
+    Gap (splitLines src []) (lastStop ⟨1, 0⟩ (tokenize E P src).toks) ⟨(splitLines src []).length + 1, 0⟩ := by
   unfold tokenize at hfin ⊢
   simp only [] at hfin ⊢
   cases h : tokenizeLines E P ((splitLines src []).length + 2) (splitLines src []) TState.init [] with
   | error e => rw [h] at hfin; simp at hfin
   | ok ts =>
     simp only []
-    exact tokenizeLines_g (splitLines src []) E P hP hF hE hEG _ _ TState.init [] ts ⟨0, 0⟩ ⟨1, 0⟩ rfl (OI.empty (Pos.le_refl' _))
-      (by intro p rest hp; cases hp) (Or.inl ⟨rfl, rfl⟩) (by simp [TState.init]) trivial
+    exact tokenizeLines_g (splitLines src []) (splitLines_nonLastEndNL src []) E P hP hF hE hEG _ _ TState.init [] ts ⟨0, 0⟩ ⟨1, 0⟩ rfl
+      (OI.empty (Pos.le_refl' _)) (by intro p rest hp; cases hp) (Or.inl ⟨rfl, rfl⟩) (by simp [TState.init]) trivial
       ⟨(by intro p rest hp; cases hp), fun _ => Gap.refl _ _⟩ (MidOK.nil _) h
+
+theorem gaps_are_indentation_or_continuation (E : Env) (P : Pats) (hP : PseudoProgress P) (hF : FstrLen P) (hE : FstrEnds P)
+    (hEG : EndGap P) (src : List Nat) (hfin : (tokenize E P src).err = none) :
+    Gaps (splitLines src []) ⟨1, 0⟩ (tokenize E P src).toks :=
+  (gaps_and_trailing E P hP hF hE hEG src hfin).1
+
+/-- **after_the_last_token**: what is left of the text after the end of the last token (the ENDMARKER) - a final line of
+    indentation without a line end, if anything - holds gap characters only: with `gaps_are_indentation_or_continuation`
+    every character of the source outside all tokens is accounted for. -/
+theorem after_the_last_token (E : Env) (P : Pats) (hP : PseudoProgress P) (hF : FstrLen P) (hE : FstrEnds P)
+    (hEG : EndGap P) (src : List Nat) (hfin : (tokenize E P src).err = none) :
+    ∀ c ∈ srcText (splitLines src []) (lastStop ⟨1, 0⟩ (tokenize E P src).toks) ⟨(splitLines src []).length + 1, 0⟩,
+      c = 32 ∨ c = 9 ∨ c = 12 ∨ c = 92 ∨ c = 13 ∨ c = 10 := by
+  intro c hc
+  have := (gaps_and_trailing E P hP hF hE hEG src hfin).2 c hc
+  simp only [gapChar, Bool.or_eq_true, decide_eq_true_eq] at this
+  omega
 
 /-- the same for any two neighbours of the stream -/
 theorem between_consecutive_tokens (E : Env) (P : Pats) (hP : PseudoProgress P) (hF : FstrLen P) (hE : FstrEnds P)
